@@ -344,6 +344,20 @@ def check(pid, P, tier, seed, work, replay, t0):
             # the driver is needed for the search even when proofs fail
             okd, outd, _ = lake_build(["mdsdrv"])
             if not okd:
+                # Regenerated definitions that do not even compile (an expression outside the translatable
+                # fragment slipped through): fall back to the committed (pinned) Gen modules, marked
+                # `recognised := false`, so that the driver builds and the search for a failing input can run.
+                restored = []
+                for g in (facts.get("changed") or []):
+                    r = run(["git", "-C", VERIF, "show", "HEAD:lean/MdsVerif/Gen/%s.lean" % g])
+                    if r.returncode == 0:
+                        src = r.stdout.replace("def recognised : Bool := true", "def recognised : Bool := false")
+                        open(os.path.join(LEAN, "MdsVerif", "Gen", g + ".lean"), "w").write(src)
+                        restored.append(g)
+                        broken.append(("Gen." + g, "the definitions regenerated from the current source do not compile; pinned module restored for the search"))
+                if restored:
+                    okd, outd, _ = lake_build(["mdsdrv"])
+            if not okd:
                 # the regenerated facts no longer fit the model at all: nothing can be executed, the tie is broken
                 errs = re.findall(r"^error: .*$", outd, flags=re.M)
                 broken.append(("lake build mdsdrv (driver)", "\n".join(errs[:20]) or outd[-2000:]))
